@@ -30,7 +30,7 @@ CLAIMS = {
          "successful commit-log Flush then Sync; each value log is flushed then fsynced and the closure reports success only then; ImmuStore.commit returns "
          "a nil error only after the commit watcher acknowledged the tx; AHtree.sync rewrites its commit log only after payload and digest logs are fsynced "
          "and moves its synced frontier only after the commit-log fsync; TBtree.flushTree appends the commit-log entry only after node/history logs are "
-         "flushed, fsyncs them before the commit log, and discards node-log data only after the commit-log fsync. Far narrower than the property: crash-point "
+         "flushed, fsyncs them before the commit log, and discards node-log data only after the commit-log fsync; singleapp's sync flushes its write buffer before the fsync. Far narrower than the property: crash-point "
          "enumeration, partial-write images, recovery at Open and post-recovery proofs are not decided.",
          "DESIGN.md 3 (C03), 9.5"),
  "C04": ("Narrow, per-function part of the read path: the index value codec (serializeIndexableEntry / valueRefFrom) round-trips vLen, vOff, hVal, metadata "
